@@ -6,6 +6,7 @@ import Pcore.Proofs.LatTransDMain
 import Pcore.Proofs.LatReflAll
 import Pcore.Proofs.LatWeakenAll
 import Pcore.Proofs.LatCtx
+import Pcore.Proofs.LatTransCall
 set_option linter.unusedSimpArgs false
 /-!
 # C03 — Assignability is a preorder, monotone per constructor, consistent with equality
@@ -80,7 +81,9 @@ Full statement / proved / missing
 * second-tier types brought inside the model in the extension round: Timestamp[min,max], Iterator[T], Runtime[runtime, name, pattern] are in ALL
   fragments (every theorem above covers them); CALLABLE[params, return, block] is inside the model (rule `callAcc`: parameters and block compared in
   reverse, absent parts) with reflexivity (`C03_refl_all`), equal types (`C03_refl_eq_all`), laws and monotonicity covering it, but OUTSIDE the
-  fragments of transitivity: `C03_trans_fails_callable` (known finding C03-trans-callable-top — a genuine intransitivity through the default Callable).
+  alias fragments of transitivity: `C03_trans_fails_callable` (known finding C03-trans-callable-top — a genuine intransitivity through the default Callable);
+  `C03_trans_callable_partial` PROVED: transitivity on the stage-3 fragment plus every Callable that is the default or has a parameter list — i.e.
+  everywhere except the shape of the finding (Proofs/LatTransCall.lean, the stage-3 induction re-run over the larger fragment).
 * no fault: `asg` and `tyEq` are total functions without a fault constructor; the nil dereference of `Tuple.Equals` was repaired (5e6c612).
 -/
 namespace Pcore.Lat
@@ -435,6 +438,28 @@ theorem C03_trans_fails_callable (sfh : Bool) :
     asg idCfg3 sfh (.callable none none none) (.callable (some (.tuple [.str] none)) none none) = true ∧
     asg idCfg3 sfh (.callable none (some .any) none) (.callable (some (.tuple [.str] none)) none none) = false := by
   refine ⟨?_, ?_, ?_⟩ <;> simp [asg, asgRecv, sameNullary]
+
+/-- TRANSITIVITY WITH CALLABLE, everywhere except the shape of the finding: on the fragment `Ty.TSK cfg sfh` = the stage-3 fragment (`Ty.TS`:
+    everything but Unit and the aliases; Struct with the rule off; Iterable) PLUS Callable types each of which is the default Callable or says
+    something about its PARAMETERS (nested Callables — block types, Callables inside parameter lists — included).  The excluded Callables,
+    with parameters absent but a return type or a block present, are exactly the left types of `C03_trans_fails_callable`.  The return types
+    compose directly (an absent return type of the middle Callable stands for Any, and what accepts Any accepts everything); the parameter
+    and block tests are made IN REVERSE and compose the other way round — the summed weight of the stage-3 induction carries the swap. -/
+theorem C03_trans_callable_partial (cfg : Cfg) (sfh : Bool) (hl : ∀ s, (cfg.lower s).length = s.length) (a b c : Ty)
+    (fa : a.TSK cfg sfh) (fb : b.TSK cfg sfh) (fc : c.TSK cfg sfh) (wa : Ty.WF cfg a) (wb : Ty.WF cfg b) (wc : Ty.WF cfg c)
+    (h1 : asg cfg sfh a b = true) (h2 : asg cfg sfh b c = true) : asg cfg sfh a c = true :=
+  transGK cfg sfh hl a b c fa fb fc wa wb wc h1 h2
+
+/-- non-vacuity: Callable[[String], Scalar] ⊒ Callable[[Scalar], String] ⊒ Callable[[Any], String['a'], Callable] is false for the block
+    (absent accepts only absent), so the chain keeps the blocks absent: Callable[[String], Scalar] ⊒ Callable[[Scalar], String] ⊒
+    Callable[[Any], String['a']] — parameters widen, return types narrow; and nested under an Array -/
+example (cfg : Cfg) :
+    (Ty.array (.callable (some (.tuple [.str] none)) (some .scalar) none) Rng.pos).TSK cfg true ∧
+    (Ty.callable (some (.tuple [.any] none)) (some (.strVal "a")) none).TSK cfg true ∧
+    asg cfg true (.callable (some (.tuple [.str] none)) (some .scalar) none) (.callable (some (.tuple [.scalar] none)) (some .str) none) = true ∧
+    asg cfg true (.callable (some (.tuple [.scalar] none)) (some .str) none) (.callable (some (.tuple [.any] none)) (some (.strVal "a")) none) = true := by
+  refine ⟨by simp [Ty.TSK], by simp [Ty.TSK], ?_, ?_⟩ <;>
+    simp [asg, asgRecv, tupZip, sameNullary, tupleSize, Rng.exact, Rng.sub, isStringFamily]
 
 theorem C03_trans_false : ¬ C03_trans := by
   intro h
